@@ -59,7 +59,10 @@
 (*    spec takes the observed set and bounds it by the hull;               *)
 (*  - Read only happens while no registry request of prefetch/background   *)
 (*    fetch is held back (concurrent on-demand reads are C02/C06);         *)
-(*  - the task manager is abstract (C13): the silence period is not time.  *)
+(*  - the task manager is abstract (C13): the silence period is not time;  *)
+(*  - a read that joins the blob fetch of a background body just cancelled *)
+(*    by a prioritized task fails with that body's "context canceled"      *)
+(*    (observed on the code); only the trace spec describes it.            *)
 (***************************************************************************)
 EXTENDS Integers, Sequences, FiniteSets, TLC
 
@@ -395,8 +398,9 @@ FairSpec == Spec /\ \A w \in 1..2 : WF_vars(WaitReturn(w)) /\ WF_vars(WaitTimeou
 
 PrefetchDoneOK == pf = "end" /\ pfres = "ok"
 BgDoneOK == bg = "end" /\ bgres = "ok"
+\* ("Drain" is not an action: the Go driver reports under this name what the rest of a prefetch did after a walk ended)
 PrefetchActs == {"PrefetchCall", "Range", "AsyncThreshold", "BlobCacheStall", "BlobCache", "ReaderCache",
-                 "PrefetchEnd", "PrefetchReturn"}
+                 "PrefetchEnd", "PrefetchReturn", "Drain"}
 
 \* after prefetch of a layer with a prefetch landmark has completed, reading any prioritized file completely
 \* causes no further registry request
@@ -416,7 +420,7 @@ ConfiguredSizeCapped ==
 
 \* ... and nothing but the range and the files whose first chunk lies in it is requested by prefetch
 PrefetchTrafficConfined ==
-    (last.act \in {"BlobCacheStall", "BlobCache", "ReaderCache", "PrefetchEnd"} /\ sc.lm # "noprefetch") =>
+    (last.act \in {"BlobCacheStall", "BlobCache", "ReaderCache", "PrefetchEnd", "Drain"} /\ sc.lm # "noprefetch") =>
         last.req \subseteq (Cover(Expected) \cup UnionOf({f \in Files : sc.off[f] < Expected}, LAMBDA f : Hull(Span(f))))
 
 \* after background fetch has completed successfully every regular file can be read in full with the registry
